@@ -177,7 +177,7 @@ def run(R):
         for c in eqs[:1]:
             # true edge of `== Unknown`
             for bb, t in b.terms():
-                if t["t"] == "switch" and F.op_local(t["discr"]) == c.dest["l"]:
+                if t["t"] == "switch" and b.reads(t["discr"], c.dest["l"]):
                     tgt = t["otherwise"] if c.name() == "eq" else t["targets"][0][1]
                     bad = (b.reach_from([tgt]) & cert_blocks) - allowed
                     R.ob("C08-R2", "stops:unknown-residual", "with an unknown residual mass no certified result is reachable except via the exact compilation",
@@ -385,7 +385,7 @@ def r4(R, bodies):
                 for c in b.calls():
                     if c.name() == "insert" and c.args and _proof_root(b, c.args[0]) == x and not c.dest["p"]:
                         for b2, t in b.terms():
-                            if t["t"] == "switch" and F.op_local(t["discr"]) == c.dest["l"]:
+                            if t["t"] == "switch" and b.reads(t["discr"], c.dest["l"]):
                                 false_t = [tgt for v, tgt in t["targets"] if str(v) == "0"]
                                 true_t = t.get("otherwise")
                                 if true_t is not None and true_t not in false_t and b.dominates(true_t, bb) and b.pred(true_t) == [b2]:
